@@ -107,6 +107,7 @@ pub fn canonical_plan(n_htlcs: usize, probe_aged: bool, probe_same: bool) -> imp
                 raw_payload_hex: None,
                 label,
                 gate: Gate::None,
+                hash_hex_override: None,
             });
         }
         Plan { cfg, local_sk, local_pk, hashes, htlcs }
